@@ -69,7 +69,7 @@ _HIDE = os.environ.get("VERIF_SHOW_KNOWN_DEFECTS", "") == ""   # set VERIF_SHOW_
 KNOWN_DEFECT_link_replaced_in_scope = False  # recorded in known_findings.jsonl
 KNOWN_DEFECT_kept_array_shape_change = False  # repaired in /repo (fix: commit 9f716d0)
 KNOWN_DEFECT_readonly_inplace_ndens = False  # repaired in /repo (fix: commit acabdbc)
-KNOWN_DEFECT_deleted_entry_reads_marker = _HIDE  # candidate, reported; while set the marker is read as "no entry"
+KNOWN_DEFECT_deleted_entry_reads_marker = False  # recorded in known_findings.jsonl
 
 
 # ---------------------------------------------------------------------------
